@@ -214,22 +214,19 @@ def _allowed(kind, ct, co):
         if co == "top":
             return {"o", "top"}
         return None
-    if kind in ("meet", "narrow"):
+    if kind == "narrow":
+        # narrowing of a decreasing pair (o <= this) only has to stay above o and below this:
+        # the only wrong verdict is a result that drops states of a non-bottom second argument
+        if co == "bot" or ct == "bot":
+            return {"this", "o", "bottom"}
+        return {"this", "o", "top"}
+    if kind in ("meet",):
         if ct == "bot" and co == "bot":
             return {"this", "o", "bottom"}
         if ct == "bot":
             return {"this", "bottom"}
         if co == "bot":
             return {"o", "bottom"}
-        if kind == "narrow":
-            # narrowing only has to stay above the second argument and below the first
-            if ct == "top" and co == "top":
-                return {"this", "o", "top"}
-            if ct == "top":
-                return {"o", "this", "top"}
-            if co == "top":
-                return {"this"}
-            return None
         if ct == "top" and co == "top":
             return {"this", "o", "top"}
         if ct == "top":
@@ -244,6 +241,8 @@ def _allowed(kind, ct, co):
             return {"o"} | ({"top"} if co == "top" else set())
         if co == "bot":
             return {"this"}
+        if ct == "top" and co == "top":
+            return {"this", "o", "top"}
         if ct == "top":
             return {"this", "top"}
         if co == "top":
